@@ -43,10 +43,12 @@ CONSTANTS Txs,          \* transaction variants
           PreExec,      \* NOT disablePreExec
           H0, MaxHeight, MaxLag,
           MaxFly, MaxPerTx,   \* exploration bounds on validator tasks in flight (not limits of the code)
+          ByCounts,           \* values of GetTxnPoolReq.ByCount that are explored
+          QuietVerify,        \* exploration bound: VerifyBlock requests only while nothing is pending (its answer does not depend on the pending list)
           \* named deviations of the code from the intended design (TRUE = as the code is)
           InvertedExpiry,   \* GetUnverifiedTxs: entries verified at an OLDER height count as verified, fresh ones are re-verified
           CheckThenActCap,  \* the pool-full test is made at submission only; AddTxList inserts unconditionally
-          SlotOverReturn,   \* removePendingTxLocked hands a slot back also for re-verify entries (which never took one)
+          SlotOverReturn,   \* removePendingTxLocked hands a slot back by the LENGTH of the pending list: also for re-verify entries (which never took one), and not for a user's entry while many re-verify entries are pending
           SlotLostOnDup     \* a submission answered "duplicate" because the hash is pending keeps the slot it took
 
 VARIABLES chain,    \* ledger blocks H0+1.. : sequence of sequences of variants
@@ -100,9 +102,11 @@ FlyPutAll(F, S, c) == IF S = {} THEN F ELSE LET t == CHOOSE u \in S : TRUE IN Fl
 Remove(P, S, x, err) ==
     LET e == CHOOSE g \in P : HashOf[g.tx] = x
         P2 == P \ {e}
-        back == SlotOverReturn \/ e.src # "rev"
+        \* as coded: whoever leaves, a slot goes back iff the list (re-verify entries included) is now shorter than Lim;
+        \* design: a slot goes back exactly when an entry that took one leaves
+        back == IF SlotOverReturn THEN Cardinality(P2) < Lim ELSE e.src # "rev"
     IN [pend |-> P2,
-        slots |-> IF back /\ Cardinality(P2) < Lim /\ S < Lim THEN S + 1 ELSE S,
+        slots |-> IF back /\ S < Lim THEN S + 1 ELSE S,
         reply |-> IF e.ch THEN <<[tx |-> e.tx, err |-> err]>> ELSE <<>>]
 
 \* handleRsp: both checks passed -> movePendingTxToPool (AddTxList + removePendingTxLocked with its result)
@@ -172,15 +176,16 @@ DeliverSL(f) ==
                   ELSE /\ pend' = P /\ fly' = F /\ UNCHANGED <<pool, slots>>
                        /\ act' = [name |-> "DeliverSL", replies |-> <<>>] @@ more
 
-\* handleRsp(rsp), rsp.Type = Stateful, rsp.Height = h (the validator ran when the ledger was at height h)
-DeliverSF(f, h) ==
+\* handleRsp(rsp), rsp.Type = Stateful, rsp.Height = h: the validator read the ledger height (h) and then asked the
+\* ledger for the hash (IsContainTransaction) when the ledger was at height hc >= h
+DeliverSF2(f, h, hc) ==
     LET x == HashOf[f.tx]
         F == FlyTake(fly, f)
         more == [tx |-> f.tx, h |-> h]
-    IN /\ f.ty = "SF" /\ h >= f.c /\ h <= Height
+    IN /\ f.ty = "SF" /\ h >= f.c /\ hc >= h /\ hc <= Height
        /\ UNCHANGED <<chain, pnext, sheight>>
        /\ IF ~IsPend(x) THEN Quiet("DeliverSF", more, F)
-          ELSE IF x \in OnChainAt(h)                                   \* IsContainTransaction -> ErrDuplicatedTx
+          ELSE IF x \in OnChainAt(hc)                                  \* IsContainTransaction -> ErrDuplicatedTx
           THEN LET r == Remove(pend, slots, x, "duptx")
                IN /\ pend' = r.pend /\ slots' = r.slots /\ fly' = F /\ UNCHANGED pool
                   /\ act' = [name |-> "DeliverSF", replies |-> r.reply] @@ more
@@ -192,6 +197,9 @@ DeliverSF(f, h) ==
                IN IF e2.sl THEN MoveToPool(P, e2, F, "DeliverSF", more)
                   ELSE /\ pend' = P /\ fly' = F /\ UNCHANGED <<pool, slots>>
                        /\ act' = [name |-> "DeliverSF", replies |-> <<>>] @@ more
+
+\* the replayed model: both reads of the validator see the same ledger
+DeliverSF(f, h) == DeliverSF2(f, h, h)
 
 \* TXPool.GetTxPool's order: by gas price, highest first (EIP-155 transactions are not modelled)
 RECURSIVE ByFee(_)
@@ -232,6 +240,7 @@ VerifyAnswer(l, h) ==
 
 VerifyBlock(l, h) ==
     /\ h >= H0 /\ h <= Height /\ Len(l) > 0
+    /\ QuietVerify => pend = {}
     /\ sheight' = h
     /\ act' = [name |-> "VerifyBlock", list |-> l, h |-> h, err |-> VerifyAnswer(l, h), replies |-> <<>>]
     /\ UNCHANGED <<chain, pnext, pool, pend, fly, slots>>
@@ -265,7 +274,7 @@ Init == /\ chain = <<>> /\ pnext = H0 + 1 /\ pool = {} /\ pend = {} /\ fly = {}
 Next == /\ \/ \E t \in SubmitTxs, k \in Kinds, st \in BOOLEAN : Submit(t, k, st)
            \/ \E f \in fly : DeliverSL(f)
            \/ \E f \in fly : \E h \in H0..MaxHeight : DeliverSF(f, h)
-           \/ \E bc \in BOOLEAN, h \in H0..MaxHeight : GetTxPool(bc, h)
+           \/ \E bc \in ByCounts, h \in H0..MaxHeight : GetTxPool(bc, h)
            \/ \E l \in VLists, h \in H0..MaxHeight : VerifyBlock(l, h)
            \/ \E b \in Blocks : LedgerSave(b)
            \/ BlockSaved
@@ -307,8 +316,9 @@ DupAnswered == [][(act'.name = "Submit" /\ (IsPend(HashOf[act'.tx]) \/ InPool(Ha
 
 \* (c) limits
 FromUsers(P) == {e \in P : e.src # "rev"}
-LimitsStrict == /\ Cardinality(pool) <= Cap
-                /\ Cardinality(FromUsers(pend)) <= Lim
+PoolCapStrict == Cardinality(pool) <= Cap
+PendLimStrict == Cardinality(FromUsers(pend)) <= Lim
+LimitsStrict == PoolCapStrict /\ PendLimStrict
 SlotsExact == slots + Cardinality(FromUsers(pend)) = Lim
 \* what the code as it is guarantees
 LimitsCoded == /\ Cardinality(pool) + Cardinality(pend) <= Cap + 2 * Lim
